@@ -94,6 +94,22 @@ impl Inventory {
     }
 }
 
+#[cfg(reclass_rs_verif)]
+impl Inventory {
+    /// Verification hook: returns the application index, class index and node map.
+    #[must_use]
+    #[allow(clippy::type_complexity)]
+    pub fn verif_parts(
+        &self,
+    ) -> (
+        &HashMap<String, Vec<String>>,
+        &HashMap<String, Vec<String>>,
+        &HashMap<String, NodeInfo>,
+    ) {
+        (&self.applications, &self.classes, &self.nodes)
+    }
+}
+
 #[cfg(test)]
 mod inventory_tests {
     use super::*;
